@@ -99,7 +99,7 @@ def _roles(node):
 def classify(node):
     """loop contract of rebuild_optimized_asm_block chosen by the shape of the loop"""
     if any(isinstance(n, (ast.For, ast.While)) and n is not node for n in ast.walk(node)):
-        return None                                            # the loop over the sub-blocks is unrolled (their number is enumerated)
+        return None                                            # the loop over the sub-blocks: unrolled, or _OuterLoop (classify_any)
     idx, acc, src, guard = _roles(node)
     if idx is not None and acc is not None and src is not None:
         if isinstance(node, ast.While) and any(isinstance(n, ast.Compare) and isinstance(n.ops[0], ast.NotEq) for n in ast.walk(node.test)):
@@ -366,5 +366,243 @@ class RebuildUnbounded(Case):
             H.check('nothing-replaced=>identity', same(got, items))
 
 
+# ---------------------------------------------------------------------------------------------------------------------------------
+# any NUMBER of sub-blocks: the loop over the sub-blocks under a contract of its own
+#
+#   family of sub-blocks     S_k (k < n) : list of strings of length L_k >= 1           (arrays indexed by k)
+#   own instructions         c_k = L_0 if k == 0 else L_k - 1,   o_0 = PRE,  o_(k+1) = o_k + c_k   (o uninterpreted, unfolded on demand)
+#   replacements             by the key  block_name + "_" + str(k) : absent / None / list R_k      (uninterpreted functions of the key)
+#   E_k  =  [prev[o_k - 1]  if k > 0 and sub-block k-1 was replaced]  ++  (R_k  if sub-block k is replaced  else  prev[o_k : o_k + c_k])
+# Invariant of the outer loop at iteration k (ghosts: BC_k = what iterations 0..k-1 have appended, g_k = none of them replaced):
+#   instr_idx = o_k,   out = prefix ++ BC_k,   previously_optimized = (k > 0 and replaced(k-1)),   g_k  =>  BC_k = prev[PRE : o_k]
+# Preservation proves  BC_(k+1) = BC_k ++ E_k  and  g_(k+1) = g_k and not replaced(k) : by induction the result is
+#   prev[:PRE] ++ E_0 ++ ... ++ E_(n-1) ++ prev[o_n:]   and the identity when nothing is replaced.
+
+class Family(object):
+    """list (of symbolic length) of lists of strings (of symbolic lengths)"""
+    _pyvc_family = True
+
+    def __init__(self, n, lens, arrs):
+        self.n, self.lens, self.arrs = n, lens, arrs
+
+    def length(self):
+        return sym.wrap(self.n)
+
+    def __getitem__(self, k):
+        ke = z3.simplify(sym._as_int_expr(k))
+        p = sym.cur()
+        if not p.branch(z3.And(ke >= 0, ke < self.n)):
+            raise IndexError("list index out of range")
+        return SymList(StrCodec(), arr=z3.Select(self.arrs, ke), n=z3.Select(self.lens, ke), name='S')
+
+
+class Replacements(object):
+    """optimize_blocks_by_name: membership, None-ness and contents are uninterpreted functions of the key"""
+
+    def __init__(self):
+        S = z3.StringSort()
+        self.has = z3.Function('repl_has', S, z3.BoolSort())
+        self.none = z3.Function('repl_none', S, z3.BoolSort())
+        self.arr = z3.Function('repl_arr', S, z3.ArraySort(z3.IntSort(), Item))
+        self.len = z3.Function('repl_len', S, z3.IntSort())
+
+    def _pyvc_contains(self, key):
+        return Sym(self.has(sym.lift(key)))
+
+    def __getitem__(self, key):
+        k = sym.lift(key)
+        p = sym.cur()
+        if not p.branch(self.has(k)):
+            raise KeyError(key)
+        if p.branch(self.none(k)):
+            return None
+        p.assume(self.len(k) >= 0)
+        return SymList(ItemCodec(), arr=self.arr(k), n=self.len(k), name='R')
+
+    def replaced(self, k):
+        return z3.And(self.has(k), z3.Not(self.none(k)))
+
+
+class _OuterLoop(LoopSpec):
+    def __init__(self, idx, acc, src, flag):
+        self.idx_name, self.acc_name, self.src_name, self.flag_name = idx, acc, src, flag
+
+    def enter(self, it, fr):
+        self.out0 = list(fr.locals[self.acc_name].segs)
+        self.ksym = None
+
+    def key(self, it, k):
+        return z3.Concat(z3.StringVal("b_"), sym.int2str(z3.simplify(k)))
+
+    def E(self, it, fr, k, po):
+        c = it.cfg
+        prev = fr.locals[self.src_name]
+        rep = c['R'].replaced(self.key(it, k))
+        o_k, c_k = c['o'](k), c['c'](k)
+        return [(prev.arr, o_k - 1, z3.If(z3.And(k > 0, po), 1, 0)),
+                (c['R'].arr(self.key(it, k)), z3.IntVal(0), z3.If(rep, c['R'].len(self.key(it, k)), 0)),
+                (prev.arr, o_k, z3.If(rep, 0, c_k))], rep
+
+    def havoc(self, it, fr, k):
+        c = it.cfg
+        ke = sym._as_int_expr(k)
+        self.ksym = ke
+        prev = fr.locals[self.src_name]
+        fr.locals[self.idx_name] = sym.wrap(c['o'](ke))
+        self.po = it.path.fresh_bool('previously_optimized').e
+        fr.locals[self.flag_name] = Sym(self.po)
+        it.path.assume(self.po == z3.And(ke > 0, c['R'].replaced(self.key(it, ke - 1))))
+        self.g = it.path.fresh_bool('nothing_replaced_so_far').e
+        it.path.assume(z3.Implies(ke == 0, self.g))
+        if it.path.branch(self.g):
+            self.bc = [(prev.arr, c['P'], c['o'](ke) - c['P'])]          # g_k : the iterations so far copied prev[PRE : o_k]
+        else:
+            bc = SymList(ItemCodec(), name='BC')
+            it.path.assume(z3.Implies(ke == 0, bc.n == 0))
+            self.bc = [(bc.arr, z3.IntVal(0), bc.n)]
+        fr.locals[self.acc_name].segs = self.out0 + self.bc
+        it.cfg['cur_block'] = ke
+        for f in c['block_facts']:                                       # instances of the precondition at sub-block k
+            it.path.assume(f(ke))
+
+    def inv(self, it, fr, k):
+        c = it.cfg
+        ke = z3.simplify(sym._as_int_expr(k))
+        idx = sym._as_int_expr(fr.locals[self.idx_name])
+        out = fr.locals[self.acc_name]
+        flag = fr.locals[self.flag_name]
+        flag = sym.truth(flag).e if isinstance(flag, Sym) else z3.BoolVal(bool(flag))
+        if self.ksym is None:
+            # on entry (k = 0): nothing appended yet, the index stands at the first own instruction
+            return z3.And(idx == c['o'](z3.IntVal(0)), z3.Not(flag), out.equals(self.out0))
+        if z3.simplify(ke - self.ksym).eq(z3.IntVal(0)):
+            return z3.BoolVal(True)                                      # the havocked state is the invariant at k by construction
+        assert z3.simplify(ke - self.ksym).eq(z3.IntVal(1))
+        k0 = self.ksym
+        Ek, rep = self.E(it, fr, k0, self.po)
+        g1 = z3.And(self.g, z3.Not(rep))
+        step = out.equals(self.out0 + self.bc + Ek)
+        # with g_(k+1) the accumulated part is again a slice of the block (the representation chosen at the next havoc)
+        prev = fr.locals[self.src_name]
+        if it.path.entails_ground(z3.Not(g1)):
+            ident = z3.BoolVal(True)                                     # something has been replaced on this path
+        else:
+            ident = z3.Implies(g1, out.equals(self.out0 + [(prev.arr, c['P'], c['o'](ke) - c['P'])]))
+        return z3.And(idx == c['o'](ke), flag == rep, step, ident)
+
+    def exit_hints(self, it, fr):
+        it.cfg['outer_spec'] = self          # the ghosts BC_n, g_n of the exit state are what the postcondition talks about
+        c = it.cfg
+        last = self.ksym - 1                 # instances of the precondition at the last sub-block (k = n on exit)
+        return tuple(f(last) for f in c['block_facts'])
+
+
+def classify_any(node):
+    got = classify(node)
+    if got is not None:
+        return got
+    # the loop over the sub-blocks: roles from its body
+    idx = acc = src = flag = None
+    for n in ast.walk(node):
+        if isinstance(n, ast.AugAssign) and isinstance(n.op, ast.Add) and isinstance(n.target, ast.Name) and idx is None:
+            idx = n.target.id
+        if isinstance(n, ast.Assign) and len(n.targets) == 1 and isinstance(n.targets[0], ast.Name) and isinstance(n.value, ast.Constant) \
+                and isinstance(n.value.value, bool) and flag is None:
+            flag = n.targets[0].id
+    for n in ast.walk(node):
+        if isinstance(n, ast.Call) and isinstance(n.func, ast.Attribute) and n.func.attr in ('append', 'extend') and isinstance(n.func.value, ast.Name) and acc is None:
+            acc = n.func.value.id
+        if isinstance(n, ast.Subscript) and isinstance(n.value, ast.Name) and isinstance(n.slice, ast.Name) and n.slice.id == idx and src is None:
+            src = n.value.id
+    if None in (idx, acc, src, flag):
+        return None
+    return _OuterLoop(idx, acc, src, flag), 'sub-blocks'
+
+
+class RebuildAnyNumber(Case):
+    prop = 'C14'
+    tier = 'P'
+    name = "rebuild_optimized_asm_block(unbounded, any number of sub-blocks)"
+    functions = (ofs.rebuild_optimized_asm_block,)
+    native_cover = False
+    stand_in = 'rebuild_optimized_asm_block(shapes)'
+    timeout_ms = 10000
+    budget_s = 300
+    max_paths = 3000
+    assumptions = ("number and lengths of sub-blocks, prefix, replacements and suffix are all symbolic; the accumulated output of the "
+                   "iterations before the current one is the ghost BC_k of the loop contract (defined by BC_0 = [], BC_(k+1) = BC_k ++ E_k)",
+                   "items are opaque values observed through to_plain(); deepcopy(item) is an equal item",
+                   "precondition: the sub-block list is a splitting of the block in the matching relation asserted by the code")
+    loops = {(QUAL, '*'): classify_any}
+
+    def run(self, H):
+        if not H.symbolic:
+            return
+        n = sym._as_int_expr(H.int('n_sub_blocks', 1))
+        prev = SymList(ItemCodec(), n=sym._as_int_expr(H.int('len_prev', 0)), name='prev')
+        P = sym._as_int_expr(H.int('PRE', 0))
+        lens = z3.Array(sym.cur()._name('L'), z3.IntSort(), z3.IntSort())
+        arrs = z3.Array(sym.cur()._name('S'), z3.IntSort(), z3.ArraySort(z3.IntSort(), z3.StringSort()))
+        fam = Family(n, lens, arrs)
+        o = z3.Function('o', z3.IntSort(), z3.IntSort())
+        cfun = lambda k: z3.If(k == 0, z3.Select(lens, k), z3.Select(lens, k) - 1)
+        R = Replacements()
+        j, kq = z3.Int('j!pc'), z3.Int('k!pc')
+        S = lambda k, t: z3.Select(z3.Select(arrs, k), t)
+        H.assume(z3.And(P >= 0, P <= prev.n, o(0) == P))
+        pre_noprint = lambda t: z3.Implies(z3.And(t >= 0, t < P), to_plain_fn(prev.at(t)) != S(z3.IntVal(0), z3.IntVal(0)))
+        H.assume(z3.ForAll([j], pre_noprint(j)))
+        H.assume(z3.Implies(P < prev.n, to_plain_fn(prev.at(P)) == S(z3.IntVal(0), z3.IntVal(0))))
+        # per sub-block facts (each is assumed under a quantifier over k and instantiated at the ghost index of the outer loop)
+        inrange = lambda k: z3.And(k >= 0, k < n)
+        f_len = lambda k: z3.Implies(inrange(k), z3.And(z3.Select(lens, k) >= 1, z3.Implies(k < n - 1, cfun(k) >= 1)))
+        f_off = lambda k: z3.Implies(inrange(k), z3.And(o(k + 1) == o(k) + cfun(k), o(k) >= P, o(k + 1) <= prev.n))
+        f_split = lambda k: z3.Implies(z3.And(inrange(k), k > 0), z3.Contains(to_plain_fn(prev.at(o(k) - 1)), S(k, z3.IntVal(0))))
+        seg = lambda k, t: z3.Implies(z3.And(inrange(k), t >= 0, t < cfun(k)),
+                                      z3.Contains(to_plain_fn(prev.at(o(k) + t)), S(k, t + z3.If(k == 0, 0, 1))))
+        for f in (f_len, f_off, f_split):
+            H.assume(z3.ForAll([kq], f(kq)))
+        H.assume(z3.ForAll([kq, j], seg(kq, j)))
+        H.assume(z3.And(f_len(z3.IntVal(0)), f_off(z3.IntVal(0))))
+        cfgd = dict(pre_noprint=pre_noprint, P=P, subs=[fam_first(fam)], o=o, c=cfun, R=R, block_facts=(f_len, f_off, f_split), cur_block=None)
+        cfgd['seg_facts'] = _CurrentBlockFacts(cfgd, seg)
+        H.it.cfg = cfgd
+        block = types.SimpleNamespace(block_name="b", instructions=prev)
+        out = H.call(ofs.rebuild_optimized_asm_block, block, fam, R)
+        H.check('raises-nothing-on-a-well-formed-splitting', out.ok, info=repr(out.exc))
+        if not out.ok:
+            return
+        res = out.value.instructions
+        H.check('input-block-untouched', Sym(block.instructions.same_as(prev)))
+        outer = H.it.cfg.get('outer_spec')
+        H.check('the-loop-over-the-sub-blocks-ran-under-its-contract', outer is not None)
+        if outer is None:
+            return
+        o_n = o(n)
+        H.check('result = prefix ++ BC_n ++ rest', Sym(res.equals([(prev.arr, z3.IntVal(0), P)] + outer.bc + [(prev.arr, o_n, prev.n - o_n)])))
+        # g_n : no sub-block was replaced (the ghost of the loop contract) => identity
+        H.check('nothing-replaced=>identity', Sym(z3.Implies(outer.g, res.equals([(prev.arr, z3.IntVal(0), prev.n)]))))
+
+
+def fam_first(fam):
+    class _First(object):
+        def at(self, i):
+            return z3.Select(z3.Select(fam.arrs, z3.IntVal(0)), i)
+    return _First()
+
+
+class _CurrentBlockFacts(object):
+    """seg_facts of the inner loops: the segment fact of the sub-block the outer loop is at"""
+
+    def __init__(self, cfg, seg):
+        self.cfg, self.seg = cfg, seg
+
+    def __iter__(self):
+        k = self.cfg.get('cur_block')
+        if k is None:
+            return iter(())
+        return iter([lambda t, k=k: self.seg(k, t)])
+
+
 def cases(tier='quick'):
-    return [RebuildUnbounded(n) for n in ((1, 2) if tier == "quick" else (1, 2, 3))], {}
+    return [RebuildUnbounded(n) for n in ((1, 2) if tier == "quick" else (1, 2, 3))], {}    # RebuildAnyNumber: work in progress, not registered
